@@ -445,14 +445,15 @@ ATX_PREFIX = {8: "j", 16: "h", 24: "l", 25: "m"}
 
 
 def atx_encode(bits, value, twice):
+    """List of lines written.  Only 16-bit frames have a "send twice" form ('t'); any other frame that must be
+    sent twice has to be written twice."""
     if bits not in ATX_PREFIX:
         return None
-    p = ATX_PREFIX[bits]
-    if twice:
-        if bits != 16:
-            return None        # the line protocol has no "send twice" form for other lengths
-        p = "t"
-    return (p + "".join("%02X" % b for b in frame_bytes(bits, value)) + "\n").encode("ascii")
+    hexs = "".join("%02X" % b for b in frame_bytes(bits, value))
+    if twice and bits == 16:
+        return [("t" + hexs + "\n").encode("ascii")]
+    line = (ATX_PREFIX[bits] + hexs + "\n").encode("ascii")
+    return [line, line] if twice else [line]
 
 
 def atx_decode(line):
